@@ -205,18 +205,18 @@ Section XmlRoundTrip.
       destruct (dec_nocr z) as [H1 [H2 H3]]. cbn [has_type] in Ht.
       assert (E : saved_view (XElem name [] (text_child (dec_of_Z z))) = XElem name [] [XText (dec_of_Z z)]).
       { unfold text_child. destruct (dec_of_Z z) eqn:Ez; [congruence|]. cbn [saved_view map]. rewrite (norm_eol_nocr _ H1). reflexivity. }
-      rewrite E. cbn [load_xml_inner load_xml_scalar first_text conv_xml_text]. rewrite (parse_int_text_dec o k z Ht). repeat split; reflexivity.
+      rewrite E. cbn [load_xml_inner load_xml_scalar first_text text_run conv_xml_text]. rewrite app_nil_r. rewrite (parse_int_text_dec o k z Ht). repeat split; reflexivity.
     - (* double *)
       cbn [val_nonfinite] in Hnf. destruct (Hd bits Hnf) as [H1 [H2 [H3 H4]]].
       assert (E : saved_view (XElem name [] (text_child (dtoa17 bits))) = XElem name [] [XText (dtoa17 bits)]).
       { unfold text_child. destruct (dtoa17 bits) eqn:Ez; [congruence|]. cbn [saved_view map]. rewrite (norm_eol_nocr _ H3). reflexivity. }
-      rewrite E. cbn [load_xml_inner load_xml_scalar first_text conv_xml_text]. rewrite H2, H1. repeat split; reflexivity.
+      rewrite E. cbn [load_xml_inner load_xml_scalar first_text text_run conv_xml_text]. rewrite app_nil_r. rewrite H2, H1. repeat split; reflexivity.
     - (* string *)
       cbn [xml_defect] in Hdf. destruct s as [|c s].
       + repeat split; discriminate.
       + assert (E : saved_view (XElem name [] (text_child (c :: s))) = XElem name [] [XText (c :: s)]).
         { cbn [text_child saved_view map]. rewrite (norm_eol_nocr _ Hdf). reflexivity. }
-        rewrite E. repeat split; reflexivity.
+        rewrite E. cbn [load_xml_inner load_xml_scalar first_text text_run conv_xml_text]. rewrite app_nil_r. repeat split; reflexivity.
   Qed.
 
   (* ---------------------------------------------------------------- vectors *)
